@@ -93,7 +93,7 @@ unsigned int get_rex_prefix(struct instr *all_instr, struct operand *m,
   return NONE;
 }
 
-uint8_t get_reg(struct instr *instrc, struct operand *m, int r) {
+void sib_no_base(struct instr *instrc, struct operand *m) {
   // check for base register (sib with not base)
   if (m->reg == reg_none && m->index != reg_none) {
     // this is the strict implementation
@@ -121,6 +121,10 @@ uint8_t get_reg(struct instr *instrc, struct operand *m, int r) {
     if (m->reg == NO_BASE)
       instrc->mod_disp = 0;
   }
+}
+
+uint8_t get_reg(struct instr *instrc, struct operand *m, int r) {
+  sib_no_base(instrc, m);
   // check for index register
   if (m->index == reg_none) {
     instrc->hex.reg =
